@@ -164,41 +164,41 @@ func positioned3(ls []Leaf3, pos map[string]v3.Vec) []Leaf3 {
 
 // polyTriangle is a scalene triangle (counter clockwise).
 func polyTriangle() []v2.Vec {
-	return []v2.Vec{{0, 0}, {4, 0}, {1, 3}}
+	return pts(0, 0, 4, 0, 1, 3)
 }
 
 // polyTriangleCW is the same triangle, clockwise.
 func polyTriangleCW() []v2.Vec {
-	return []v2.Vec{{0, 0}, {1, 3}, {4, 0}}
+	return pts(0, 0, 1, 3, 4, 0)
 }
 
 // polyL is a concave L-shape.
 func polyL() []v2.Vec {
-	return []v2.Vec{{0, 0}, {4, 0}, {4, 1}, {1, 1}, {1, 3}, {0, 3}}
+	return pts(0, 0, 4, 0, 4, 1, 1, 1, 1, 3, 0, 3)
 }
 
 // polyRectCollinear is a 4x2 rectangle with extra collinear vertices on its sides.
 func polyRectCollinear() []v2.Vec {
-	return []v2.Vec{{0, 0}, {1, 0}, {2, 0}, {4, 0}, {4, 1}, {4, 2}, {2, 2}, {0, 2}, {0, 1}}
+	return pts(0, 0, 1, 0, 2, 0, 4, 0, 4, 1, 4, 2, 2, 2, 0, 2, 0, 1)
 }
 
 // squareSegmentsShuffled is the boundary of the square [-1,1]^2 as counter clockwise
 // line segments, listed out of order.
 func squareSegmentsShuffled() []*sdf.Line2 {
 	return []*sdf.Line2{
-		{{1, 1}, {-1, 1}},
-		{{-1, -1}, {1, -1}},
-		{{-1, 1}, {-1, -1}},
-		{{1, -1}, {1, 1}},
+		{xy(1, 1), xy(-1, 1)},
+		{xy(-1, -1), xy(1, -1)},
+		{xy(-1, 1), xy(-1, -1)},
+		{xy(1, -1), xy(1, 1)},
 	}
 }
 
 // tetraMesh is a closed tetrahedron with outward facing normals.
 func tetraMesh() []*sdf.Triangle3 {
-	a := v3.Vec{0, 0, 0}
-	b := v3.Vec{2, 0, 0}
-	c := v3.Vec{0, 2, 0}
-	d := v3.Vec{0, 0, 2}
+	a := xyz(0, 0, 0)
+	b := xyz(2, 0, 0)
+	c := xyz(0, 2, 0)
+	d := xyz(0, 0, 2)
 	return []*sdf.Triangle3{
 		{a, c, b}, // z = 0, normal -z
 		{a, b, d}, // y = 0, normal -y
@@ -210,7 +210,7 @@ func tetraMesh() []*sdf.Triangle3 {
 // cubeMesh is the closed surface of the cube [-h,h]^3 (12 triangles, outward facing normals).
 func cubeMesh(h float64) []*sdf.Triangle3 {
 	p := func(i int) v3.Vec {
-		v := v3.Vec{-h, -h, -h}
+		v := xyz(-h, -h, -h)
 		if i&1 != 0 {
 			v.X = h
 		}
@@ -237,4 +237,29 @@ func cubeMesh(h float64) []*sdf.Triangle3 {
 		m = append(m, &sdf.Triangle3{p(q[0]), p(q[2]), p(q[3])})
 	}
 	return m
+}
+
+//-----------------------------------------------------------------------------
+// keyed vector constructors (go vet rejects unkeyed literals of imported struct types)
+
+// xy returns the 2D vector (x, y).
+func xy(x, y float64) v2.Vec {
+	return v2.Vec{X: x, Y: y}
+}
+
+// xyz returns the 3D vector (x, y, z).
+func xyz(x, y, z float64) v3.Vec {
+	return v3.Vec{X: x, Y: y, Z: z}
+}
+
+// pts returns the 2D points (c[0],c[1]), (c[2],c[3]), ...
+func pts(c ...float64) []v2.Vec {
+	if len(c)%2 != 0 {
+		panic("shapes: pts needs an even number of coordinates")
+	}
+	v := make([]v2.Vec, len(c)/2)
+	for i := range v {
+		v[i] = xy(c[2*i], c[2*i+1])
+	}
+	return v
 }
